@@ -98,6 +98,10 @@ func (cr *concRun) fail(sig, msg string) {
 
 func keyA(w int) []byte { return []byte(fmt.Sprintf("A%03d", w)) }
 func keyB(w int) []byte { return []byte(fmt.Sprintf("zB%03d", w)) } // far from A in key order: other blocks/tables
+const sharedKeys = 4
+
+func keyG(i int) []byte { return []byte(fmt.Sprintf("G%02d", i)) }
+
 func keyP(w, i int) []byte { return []byte(fmt.Sprintf("p%03d-%02d", w, i)) }
 
 func concErrClass(err error) string {
@@ -213,6 +217,15 @@ func runConc(cfg ConcCfg, record bool) *concRun {
 					}
 					for i := 0; i < rr.Intn(3); i++ {
 						b.Put(keyP(w, rr.Intn(8)), encN(n, pad(rr)))
+					}
+					if cfg.Writers > 1 && rr.Chance(1, 3) {
+						// every batch that touches the shared group overwrites ALL its keys with one token, in a
+						// rotated order: in any consistent view the four keys carry the same token
+						tok := encN(uint64(w+1)<<32|n, 0)
+						off := rr.Intn(sharedKeys)
+						for i := 0; i < sharedKeys; i++ {
+							b.Put(keyG((off+i)%sharedKeys), tok)
+						}
 					}
 					b.Put(keyB(w), v)
 					err = db.Write(b, &opt.WriteOptions{Sync: rr.Chance(1, 6), NoWriteMerge: rr.Chance(1, 8)})
@@ -332,6 +345,21 @@ func runConc(cfg ConcCfg, record bool) *concRun {
 						}
 						lastSeen[w] = decN(va)
 					}
+					var g0 []byte
+					for i := 0; i < sharedKeys; i++ {
+						gv, ge := sn.Get(keyG(i), nil)
+						if ge == leveldb.ErrClosed {
+							break
+						}
+						if ge != nil {
+							gv = nil
+						}
+						if i == 0 {
+							g0 = gv
+						} else if !bytes.Equal(g0, gv) {
+							cr.fail("snapshot:shared-group-torn", fmt.Sprintf("snapshot: shared group keys G00 and G%02d carry tokens %x and %x although every batch writes all of them together", i, g0, gv))
+						}
+					}
 					sn.Release()
 					atomic.AddInt64(cr.stat("snapshots"), 1)
 				} else {
@@ -340,6 +368,7 @@ func runConc(cfg ConcCfg, record bool) *concRun {
 						time.Sleep(time.Duration(rr.Intn(300)) * time.Microsecond)
 					}
 					as, bs := map[int]uint64{}, map[int]uint64{}
+					var gtoks []string
 					var prev []byte
 					for it.Next() {
 						k := it.Key()
@@ -348,7 +377,9 @@ func runConc(cfg ConcCfg, record bool) *concRun {
 						}
 						prev = append(prev[:0], k...)
 						var w int
-						if n, _ := fmt.Sscanf(string(k), "A%03d", &w); n == 1 {
+						if len(k) == 3 && k[0] == 'G' {
+							gtoks = append(gtoks, string(it.Value()))
+						} else if n, _ := fmt.Sscanf(string(k), "A%03d", &w); n == 1 {
 							as[w] = decN(it.Value())
 						} else if n, _ := fmt.Sscanf(string(k), "zB%03d", &w); n == 1 {
 							bs[w] = decN(it.Value())
@@ -367,6 +398,12 @@ func runConc(cfg ConcCfg, record bool) *concRun {
 						a, ha := as[w]
 						b, hb := bs[w]
 						chk("iterator", w, befores[w], a, b, ha, hb, true)
+					}
+					for i := 1; i < len(gtoks); i++ {
+						if gtoks[i] != gtoks[0] || len(gtoks) != sharedKeys {
+							cr.fail("iterator:shared-group-torn", fmt.Sprintf("iterator: the shared group shows tokens %x (every batch writes all %d keys together)", gtoks, sharedKeys))
+							break
+						}
 					}
 					atomic.AddInt64(cr.stat("iterators"), 1)
 				}
@@ -430,6 +467,34 @@ func runConc(cfg ConcCfg, record bool) *concRun {
 					cr.fail("final:acknowledged-write-lost", fmt.Sprintf("writer %d: last acknowledged %d, final A=%d(%v) B=%d(%v)", w, ack, decN(a), ea, decN(b), eb))
 				}
 			}
+		}
+		var g0 []byte
+		for i := 0; i < sharedKeys; i++ {
+			gv, ge := db.Get(keyG(i), nil)
+			if ge != nil {
+				gv = nil
+			}
+			if i == 0 {
+				g0 = gv
+			} else if !bytes.Equal(g0, gv) && cfg.SyncFault == 0 {
+				cr.fail("final:shared-group-torn", fmt.Sprintf("final state: shared group keys G00 and G%02d carry tokens %x and %x: no serial order of the batches gives that", i, g0, gv))
+			}
+		}
+		// sequence numbers are unique per entry: look at everything the DB still holds
+		if st := leveldb.VerifDump(db); st != nil && cfg.SyncFault == 0 {
+			seen := map[uint64]string{}
+			dup := func(es []leveldb.VerifEntry) {
+				for _, e := range es {
+					q := seqOf(e.IKey)
+					if prev, ok := seen[q]; ok && prev != string(e.IKey) {
+						cr.fail("final:sequence-number-used-twice", fmt.Sprintf("sequence number %d is carried by two different entries: %x and %x", q, prev, e.IKey))
+						return
+					}
+					seen[q] = string(e.IKey)
+				}
+			}
+			dup(st.Mem)
+			dup(st.Frozen)
 		}
 		cdone := make(chan error, 1)
 		go func() { cdone <- db.Close() }()
